@@ -341,6 +341,7 @@ impl QueryRouter {
             }
 
             Command::SetPrimaryReads => {
+                let value = value.to_ascii_lowercase();
                 if value == "on" {
                     debug!("Setting primary reads to on");
                     self.primary_reads_enabled = Some(true);
